@@ -275,6 +275,14 @@ func runTestModeAfterStop(proto string) (impl, pred string) {
 		tp.stop()
 		return "setup-error", "FAIL:setup-live-reattach"
 	}
+	// "with the same protocol": the plugin serves the plugin set of version 3 (its handshake configuration carries no
+	// version of its own), so that is the version its reattach configuration names and the reattached client reports
+	if rc.ProtocolVersion != 3 || c1.NegotiatedVersion() != 3 || string(rc.Protocol) != proto {
+		impl = fmt.Sprintf("cfgversion=%d negotiated=%d cfgproto=%s", rc.ProtocolVersion, c1.NegotiatedVersion(), rc.Protocol)
+		withTimeout(6*time.Second, func() error { c1.Kill(); return nil })
+		tp.stop()
+		return impl, "FAIL:test-mode-reattach-config-names-another-protocol-version"
+	}
 	withTimeout(6*time.Second, func() error { c1.Kill(); return nil })
 	tp.stop()
 	waitDead(rc.Pid, 3*time.Second)
